@@ -232,7 +232,31 @@ fn run(rng: &mut Rng, idx: u64, tier: Tier) -> CaseOut {
         _ => {}
     }
     let net = crate::net::gen_net(rng, &nopts);
-    let f = if rng.coin() { gen_formula(rng, &fopts, &net.names) } else { templated(rng, &fopts, &net.names) };
+    // one case in six: a plain formula over operators that never look at self-loops (the fragment on which the
+    // self-loop-free entry point must agree with standard evaluation), with the attractor pattern in it
+    let loop_free_family = rng.chance(1, 6);
+    if loop_free_family {
+        fopts.un_ops = vec![Un::Not, Un::EF, Un::AG];
+        fopts.bin_ops = vec![Bin::And, Bin::Or, Bin::Imp, Bin::EU, Bin::AW, Bin::Xor];
+        fopts.wild_props.clear();
+        fopts.domains.clear();
+        fopts.domain_pct = 0;
+        fopts.pattern_pct = 0;
+    }
+    let f = if loop_free_family {
+        let g = gen_formula(rng, &fopts, &net.names);
+        let pat = hyb(Hyb::Bind, "w1", None, un(Un::AG, un(Un::EF, var("w1"))));
+        match rng.below(4) {
+            0 => pat,
+            1 => un(*rng.pick(&[Un::EF, Un::AG, Un::Not]), pat),
+            2 => bin(*rng.pick(&[Bin::And, Bin::Or, Bin::EU, Bin::AW]), g, pat),
+            _ => bin(*rng.pick(&[Bin::And, Bin::Imp, Bin::EU]), pat, g),
+        }
+    } else if rng.coin() {
+        gen_formula(rng, &fopts, &net.names)
+    } else {
+        templated(rng, &fopts, &net.names)
+    };
     let k = f.quant_depth() as u16 + rng.below(2) as u16;
     let world = World::from_net(net, rng, 10, 128);
     let sys = match build(&world, k) {
@@ -323,6 +347,36 @@ fn run(rng: &mut Rng, idx: u64, tier: Tier) -> CaseOut {
         }
     }
     let _ = drain_events(&mut out);
+    // (3b) the self-loop-free entry point: on formulae without EX/AX/AF/EG/AU/EW and without wild-cards it must give the
+    // standard result for the pattern spelling as well as for the generic spelling
+    {
+        let sensitive_un = [Un::EX, Un::AX, Un::AF, Un::EG];
+        let sensitive_bin = [Bin::AU, Bin::EW];
+        let (mut ps, mut ds) = (Vec::new(), Vec::new());
+        f.wild_labels(&mut ps, &mut ds);
+        let plain = ps.is_empty() && ds.is_empty();
+        if plain && !f.uses_un(&sensitive_un) && !f.uses_bin(&sensitive_bin) && !g.uses_un(&sensitive_un) && !g.uses_bin(&sensitive_bin) {
+            for (t, which) in [(&text, "pattern spelling"), (&gtext, "generic spelling")] {
+                match call(|| mc::model_check_formula_unsafe_ex(t, &sys.graph)) {
+                    Call::Ok(u) => {
+                        out.count("unsafe_ex_comparisons");
+                        if u.intersect(unit) != orig.intersect(unit) {
+                            violate_diff(&mut out, &world, &sys, "shortcut result differs from generic evaluation (self-loop-free entry point)", (&text, &orig), (t, &u), vec![("which", J::s(which))]);
+                            return out;
+                        }
+                    }
+                    Call::Err(e) => {
+                        out.violate("error on a valid closed formula", format!("model_check_formula_unsafe_ex: Err({e}) on `{t}`"), detail(&e));
+                        return out;
+                    }
+                    Call::Panic(p) => {
+                        out.violate(&crate::libg::panic_signature(&p), format!("model_check_formula_unsafe_ex panicked on `{t}`: {p}"), detail(&p));
+                        return out;
+                    }
+                }
+            }
+        }
+    }
     // (4) a second pattern formula evaluated together with the first, in both orders, must give the single results
     {
         let mut f2opts = fopts.clone();
